@@ -17,6 +17,7 @@ import GomlVerif.Driver.C18
 import GomlVerif.Driver.C14
 import GomlVerif.Driver.C07
 import GomlVerif.Driver.C03
+import GomlVerif.Driver.C03pres
 import GomlVerif.Driver.Dce
 import GomlVerif.Driver.C09
 import GomlVerif.Driver.GoComp
@@ -45,6 +46,8 @@ def main (args : List String) : IO UInt32 := do
   | ["c14"] => Goml.Driver.C14.main; return 0
   | ["c07"] => Goml.Driver.C07.main; return 0
   | ["c03"] => Goml.Driver.C03.main; return 0
+  | ["c03pres"] => Goml.Driver.C03pres.main; return 0
+  | ["c03presmatch"] => Goml.Driver.C03pres.mainMatch; return 0
   | ["dce"] => Goml.Driver.Dce.main; return 0
   | ["c09"] => Goml.Driver.C09.main; return 0
   | ["gocomp"] => Goml.Driver.GoComp.main; return 0
